@@ -1132,6 +1132,60 @@ def ensure_tables(ctx, force=False):
                          "problems": ["coq build failed: " + ctx.build_log[-1200:]]}
 
 
+K37_PROTO = {"k37/k37.proto": 'syntax = "proto3";\npackage k37;\nmessage Leaf { oneof pick { int32 a = 1; string b = 2; } int32 z = 3; }\n'
+                              'message Mid { Leaf n = 1; }\nmessage Outer { Mid q = 5; int32 x = 1; }\n'}
+K37_SCRIPT = r"""
+import importlib, json, sys
+m = importlib.import_module(sys.argv[1] + ".k37")
+out = {}
+def run(name, f):
+    try:
+        o = m.Outer(); f(o); out[name] = [bytes(o).hex(), json.dumps(o.to_dict(), sort_keys=True)]
+    except Exception as e:
+        out[name] = ["EXC " + type(e).__name__ + ": " + str(e)[:200], ""]
+def lazy_default(o): o.q.n.a = 0
+def lazy_nondefault(o): o.q.n.a = 7
+def lazy_plain_default(o): o.q.n.z = 0
+def assigned_default(o): o.q = m.Mid(n=m.Leaf(a=0))
+def flagged_holders(o):
+    o.q = m.Mid(); o.q.n = m.Leaf(); o.q.n.a = 0
+def lazy_b_empty(o): o.q.n.b = ""
+for f in (lazy_default, lazy_nondefault, lazy_plain_default, assigned_default, flagged_holders, lazy_b_empty):
+    run(f.__name__, f)
+print("K37OUT " + json.dumps(out))
+"""
+
+
+def stage_nested_lazy(ctx):
+    """identical histories on the plain and the pydantic classes of one schema: a oneof member assigned below lazily created holders
+    (C18_bytes_pydantic needs sow_ok; C18_bytes_pydantic_flag_refuted is the witness, known finding K37)"""
+    base = ctx.work
+    PU.shim_dir(base)
+    res = {}
+    for pyd in (False, True):
+        root = f"c18k37_{'pyd' if pyd else 'std'}"
+        rc, out, _ = PU.generate(base, K37_PROTO, root, ("pydantic_dataclasses",) if pyd else ())
+        if rc != 0:
+            ctx.fail("oracle", "the plugin failed on the nested-lazy-default schema", input={"files": K37_PROTO, "output": out[-800:], "pydantic": pyd})
+            return
+        sp = os.path.join(base, "k37_script.py")
+        open(sp, "w").write(K37_SCRIPT)
+        rc, out = PU.run_in_subprocess(base, f"import sys; sys.argv = ['x', {root!r}]; exec(open({sp!r}).read())", timeout=300)
+        line = [l for l in out.splitlines() if l.startswith("K37OUT ")]
+        if rc != 0 or not line:
+            ctx.fail("oracle", f"nested-lazy-default script failed under {'pydantic' if pyd else 'standard'} dataclasses", input={"output": out[-800:]})
+            return
+        res[pyd] = json.loads(line[0][7:])
+    for name in res[False]:
+        ctx.count("nested_lazy_histories")
+        a, b = res[False][name], res[True][name]
+        if a != b:
+            lazy_default_member = name in ("lazy_default", "lazy_b_empty")
+            ctx.fail("oracle", f"history {name} on Outer(): standard dataclasses give bytes {a[0]} / JSON {a[1]}, pydantic dataclasses give bytes {b[0]} / JSON {b[1]}",
+                     cls="pydantic-nested-default-flag" if lazy_default_member and a[1] == b[1] else None,
+                     input={"files": K37_PROTO, "history": name, "standard": a, "pydantic": b})
+
+
 def run(ctx):
     import threading
 
@@ -1149,6 +1203,7 @@ def run(ctx):
             t0 = time.time()
             stage_options(sub)
             stage_bundled_libs(sub)
+            stage_nested_lazy(sub)
             ctx.notes.append(f"stage D+E {time.time() - t0:.1f}s")
         except Exception:  # noqa
             side_err.append(traceback.format_exc())
